@@ -55,9 +55,6 @@ theorem hrun_done (k : Nat) (st : St α) (h : st.act = .done) :
   | zero => rfl
   | succ k ih => simp [hrun, action, h, ih, List.replicate_succ]
 
-def Ev.isClean : Ev α → Bool
-  | .result _ | .stop | .raised _ => false
-  | _ => true
 
 /-- events emitted by predicates are neither results, nor `stop`, nor raises of the outer
 search (true of every has-family predicate, which strips them from the nested run) -/
